@@ -556,6 +556,10 @@ func (g *Gen) loopWriteSet(h *ssa.BasicBlock) (map[string]bool, bool) {
 			case *ssa.Send:
 				ws["ChanN"] = true
 				ws["ChanV"] = true
+			case *ssa.UnOp:
+				if x.Op == token.ARROW {
+					ws["ChanR"] = true
+				}
 			case *ssa.Next:
 				if r, ok := x.Iter.(*ssa.Range); ok {
 					if mt, ok := r.X.Type().Underlying().(*types.Map); ok {
@@ -707,6 +711,8 @@ func (g *Gen) instr(in ssa.Instruction) {
 	case *ssa.MakeChan:
 		r := g.newRef(g.st)
 		g.setHeap(g.st, "ChanN", "(Array Int Int)", sx("store", g.heap(g.st, "ChanN", "(Array Int Int)"), r, "0"))
+		g.setHeap(g.st, "ChanR", "(Array Int Int)", sx("store", g.heap(g.st, "ChanR", "(Array Int Int)"), r, "0"))
+		g.setHeap(g.st, "Closed", "(Array Int Bool)", sx("store", g.heap(g.st, "Closed", "(Array Int Bool)"), r, "false"))
 		g.set(x, Val{T: r, S: "Int", G: x.Type()})
 	case *ssa.MakeClosure:
 		r := g.newRef(g.st)
@@ -1019,17 +1025,31 @@ func (g *Gen) unop(x *ssa.UnOp) {
 	case token.MUL:
 		g.load(x)
 	case token.ARROW:
+		// receive: the k-th receive on a channel yields the k-th value sent on it
+		// (goroutines are joined where they are started, so every send has
+		// happened). A plain receive with nothing left would block, not panic;
+		// with ",ok" (and in a range loop) ok reports whether a value was left.
 		ch := g.val(x.X)
-		_ = ch
 		et := x.X.Type().Underlying().(*types.Chan).Elem()
+		rh := g.heap(g.st, "ChanR", "(Array Int Int)")
+		cur := g.define("rcur", "Int", sx("select", rh, ch.T))
+		n := sx("select", g.heap(g.st, "ChanN", "(Array Int Int)"), ch.T)
+		avail := g.define("ravail", "Bool", and(not(sx("=", ch.T, "0")), sx("<", cur, n)))
+		es := g.sortOf(et)
 		v := g.freshVal("recv", et)
+		if _, isStruct := et.Underlying().(*types.Struct); !isStruct && es != "" {
+			boxed := sx("select", sx("select", g.heap(g.st, "ChanV", "(Array Int (Array Int Int))"), ch.T), cur)
+			g.assume(implies(avail, sx("=", v.T, g.unboxAny(boxed, es))))
+		}
 		g.assume(g.typeInv(v, g.st))
 		if x.CommaOk {
-			ok := g.freshVal("recvok", types.Typ[types.Bool])
+			ok := Val{T: avail, S: "Bool", G: types.Typ[types.Bool]}
 			g.vals[x] = Val{Tup: []Val{v, ok}}
 		} else {
+			g.assume(avail)
 			g.vals[x] = v
 		}
+		g.setHeap(g.st, "ChanR", "(Array Int Int)", sx("store", rh, ch.T, sx("ite", avail, sx("+", cur, "1"), cur)))
 	default:
 		g.bail("unary op %s", x.Op)
 	}
